@@ -115,13 +115,16 @@ func (e *Eng) buildPrelude() string {
 	}
 	// string literals: declared per query (only those the query mentions), see slimPrelude
 	b.WriteString(";;STRLITS;;\n")
+	for n := 0; n <= 3; n++ {
+		e.needSprintf(n)
+	}
 	b.WriteString(e.extraDecls())
 	// contract-file prelude
 	for _, p := range e.cs.Prelude {
 		if p.Theory != "" {
 			continue
 		}
-		b.WriteString(p.Text)
+		b.WriteString(e.strLitSubst(p.Text))
 		b.WriteString("\n")
 	}
 	return b.String()
@@ -135,7 +138,7 @@ func (e *Eng) theoryText(uses []string) string {
 	}
 	for _, p := range e.cs.Prelude {
 		if p.Theory != "" && hasTag(uses, p.Theory) {
-			b.WriteString(p.Text)
+			b.WriteString(e.strLitSubst(p.Text))
 			b.WriteString("\n")
 		}
 	}
